@@ -36,7 +36,8 @@ def items(shard):
             else:
                 tails = FORMS
             for t in tails:
-                bs = bytes(pre) + bytes(path) + t + b'\x07' + b'\x00' * 6
+              for immb in (b'\x07', b'\x8b'):          # a second immediate byte above 7 and above 0x7f (predicate / selector fields use the low bits only)
+                bs = bytes(pre) + bytes(path) + t + immb + b'\x00' * 6
                 try: ins = x86mnemo.dis(bs)
                 except Exception: continue
                 if ins is None or ins.b in seen: continue
@@ -62,7 +63,10 @@ def _work(job):
     for (b, ins, tn), r in zip(its, ref):
         try: txt = str(ins)
         except Exception: continue
-        if C01sse.compare(b, ins.l, txt, r) is not None or r is None or re.match(r'^(rep|repz|repnz|data16|addr16|lock)\b', r[1]): continue
+        if r is None or re.match(r'^(rep|repz|repnz|data16|addr16|lock)\b', r[1]): continue
+        # C02/C09/C19 need to know what the rendered line denotes: only strings on which miasmX and objdump agree (C01 clause) are used;
+        # the fixpoint property C03 is about miasmX's own rendering, whatever it is
+        if prop != 'C03' and C01sse.compare(b, ins.l, txt, r) is not None: continue
         keep.append((b, txt.strip(), tn, r))
     groups = {}
     def fail(clause, tn, hx, msg):
@@ -73,6 +77,15 @@ def _work(job):
         n += 1
         c, crash = asmfam.safe_asm(txt)
         cand_all.append(c)
+    if prop == 'C09':
+        for (b, txt, tn, r) in keep:
+            try:
+                i2 = x86mnemo.dis(b)
+                seq = [str(i2).strip(), i2.__str__('att_syntax binutils').strip(), str(i2).strip(), i2.__str__('att_syntax binutils').strip()]
+                if seq[0] != seq[2] or seq[1] != seq[3]:
+                    fail('sse-render-repeat', tn, b.hex(), '%s renders as %r / %r first and as %r / %r when asked again' % (b.hex(), seq[0], seq[1], seq[2], seq[3]))
+            except Exception:
+                pass
     if prop == 'C19':
         for (b, txt, tn, r), c0 in zip(keep, cand_all):
             if c0 is None: continue
@@ -158,6 +171,10 @@ def replay(prop, hexbytes, clause):
         ri, ra = C01sse.objdump_slots([gi or b'\x90', ga or b'\x90'])
         ca, _ = asmfam.safe_asm(ta, True)
         print('  AT&T %r; GNU as intel -> %s %r; GNU as att -> %s %r; asm_att -> %s' % (ta, gi and gi.hex(), ri, ga and ga.hex(), ra, [x.hex() for x in (ca or [])] if ca is not None else 'error'))
+        if clause == 'sse-render-repeat':
+            i2 = x86mnemo.dis(b); a1 = str(i2); a2 = i2.__str__('att_syntax binutils'); a3 = str(i2); a4 = i2.__str__('att_syntax binutils')
+            print('  renderings in turn:', a1, '|', a2, '|', a3, '|', a4)
+            return 1 if (a1 != a3 or a2 != a4) else 0
         if clause.startswith('sse-gas-intel'): bad = gi is None or not same_text(ri, r)
         elif clause.startswith('sse-gas-att'): bad = ga is None or not same_text(ra, r)
         elif clause == 'sse-att-parse': bad = ca is None or b not in ca
